@@ -8,7 +8,7 @@ every possible element value (not sampled ones): operator() is a sign function o
 order, less <=> operator() < 0, equal <=> operator() == 0, ascending direction."""
 import os
 from engine import facts
-from engine.facts import kids, strip, is_call, call_args
+from engine.facts import kids, walk, strip, is_call, call_args, expr_key
 
 TU = os.path.join(facts.VERIF, 'tu', 'cmp_instances.cpp')
 JOB = (TU, r'(BTreeUtil|UnionFind|interpreter/Util)\.h$', r'.*')
@@ -193,3 +193,213 @@ def rule_comparators(rep, u, cls_re, rule='R-comparator-order'):
                     break
             rep.ob(rule, '%s/%s' % (cls, name), bad is None, f.where, bad or '')
     return len(classes)
+
+
+# ---------------------------------------------------------------------------------------------------
+# generated (synthesised) index comparators: the same decision on the TEXT the synthesiser emits
+
+import re as _re
+from engine import tables as _tables
+
+_TOK = _re.compile(r'\s*(\|\||&&|==|[()?:<>\-]|\d+|[A-Za-z_]+)')
+
+
+class _P:
+    """tiny evaluator for the comparator expression language: ?: || && == < > unary- ( ) ints A B TAIL"""
+
+    def __init__(self, text, env):
+        self.t, self.i, self.env = [], 0, env
+        pos = 0
+        text = text.strip()
+        while pos < len(text):
+            m = _TOK.match(text, pos)
+            if not m:
+                raise Bad({'l': 0}, 'generated comparator text not understood near %r' % text[pos:pos + 20])
+            self.t.append(m.group(1))
+            pos = m.end()
+
+    def peek(self):
+        return self.t[self.i] if self.i < len(self.t) else None
+
+    def eat(self, v=None):
+        x = self.peek()
+        if v is not None and x != v:
+            raise Bad({'l': 0}, 'generated comparator text: expected %r, found %r' % (v, x))
+        self.i += 1
+        return x
+
+    def top(self):
+        v = self.cond()
+        if self.peek() is not None:
+            raise Bad({'l': 0}, 'generated comparator text: trailing %r' % self.peek())
+        return v
+
+    def cond(self):
+        c = self.lor()
+        if self.peek() == '?':
+            self.eat()
+            a = self.cond()
+            self.eat(':')
+            b = self.cond()
+            return a if c else b
+        return c
+
+    def lor(self):
+        v = self.land()
+        while self.peek() == '||':
+            self.eat()
+            w = self.land()
+            v = int(bool(v) or bool(w))
+        return v
+
+    def land(self):
+        v = self.eq()
+        while self.peek() == '&&':
+            self.eat()
+            w = self.eq()
+            v = int(bool(v) and bool(w))
+        return v
+
+    def eq(self):
+        v = self.relop()
+        while self.peek() == '==':
+            self.eat()
+            w = self.relop()
+            v = int(v == w)
+        return v
+
+    def relop(self):
+        v = self.un()
+        while self.peek() in ('<', '>'):
+            op = self.eat()
+            w = self.un()
+            v = int(v < w) if op == '<' else int(v > w)
+        return v
+
+    def un(self):
+        if self.peek() == '-':
+            self.eat()
+            return -self.un()
+        if self.peek() == '(':
+            self.eat()
+            v = self.cond()
+            self.eat(')')
+            return v
+        x = self.eat()
+        if x is None:
+            raise Bad({'l': 0}, 'generated comparator text ends early')
+        if x.isdigit():
+            return int(x)
+        if x in self.env:
+            return self.env[x]
+        raise Bad({'l': 0}, 'generated comparator text: unknown operand %r' % x)
+
+
+def _expand(events, take_if, names):
+    out = []
+    for e in events:
+        if e[0] == 'lit':
+            out.append(e[1])
+        elif e[0] == 'dyn':
+            out.append(names.get(e[2].get('did'), ' ?%s ' % e[1]))
+        elif e[0] == 'hole':
+            out.append(' TAIL ')
+        elif e[0] == 'if':
+            out.append(_expand(e[2] if take_if else e[3], take_if, names))
+        elif e[0] in ('decl', 'return'):
+            continue
+        else:
+            raise Bad(e[-1] if isinstance(e[-1], dict) else {'l': 0}, 'statement in a comparator generator not understood')
+    return ''.join(out)
+
+
+def rule_generated_comparator(rep, rel, rule='R4-generated-comparator-order'):
+    """synthesiser/Relation.cpp DirectRelation::generateTypeStruct: the three generator lambdas of `genstruct`"""
+    outer = [f for f in rel.functions if f.is_lambda and 'DirectRelation::generateTypeStruct' in f.qname
+             and any(p['name'] == 'bound' for p in f.d['params'])]
+    if not outer:
+        rep.analysis_broken('generateTypeStruct: comparator struct generator lambda not found')
+        return 0
+
+    def hole(e):
+        e2 = strip(e, casts=True)
+        return 'TAIL' if e2['k'] == 'CXXOperatorCallExpr' and e2.get('op') == '()' and 'std::function' in strip(call_args(e2)[0], casts=True).get('t', '') else None
+    gs = outer[0]
+    method, which = None, {}
+    for e in _tables.Emit(hole, ('decl',)).events(kids(gs.body)):
+        if e[0] == 'lit':
+            for key in ('operator()', 'less', 'equal'):
+                if _re.search(r'\b%s\s*\(const t_tuple' % _re.escape(key), e[1]):
+                    method = key
+        elif e[0] == 'decl' and method:
+            for m in walk(e[1]):
+                if m['k'] == 'LambdaExpr':
+                    which[m.get('lambda_did')] = method
+    n = 0
+    for f in rel.functions:
+        if not f.is_lambda or f.d['did'] not in which:
+            continue
+        name = which[f.d['did']]
+        n += 1
+        inst = 'DirectRelation::generateTypeStruct/t_comparator::%s' % name
+        par = f.d['params'][0]['name'] if f.d['params'] else None
+        decl = {m['name']: m for m in f.walk() if m['k'] == 'VarDecl' and m.get('name')}
+        ev = _tables.Emit(hole, ('decl',)).events(kids(f.body))
+        dyn = [e for e in walk_events(ev) if e[0] == 'dyn']
+        # which streamed variable is the cast, which the column
+        cast_v = col_v = None
+        bad = None
+        for e in dyn:
+            vd = decl.get(e[2].get('name')) if e[2]['k'] == 'DeclRefExpr' else None
+            if vd is None or not kids(vd):
+                bad = 'streams `%s`, which is not a local of the generator' % e[1]
+                break
+            init = strip(kids(vd)[0], casts=True)
+            base = call_args(init)[0] if init['k'] == 'CXXOperatorCallExpr' and init.get('op') == '[]' else None
+            bname = strip(base, casts=True).get('name') if base is not None else None
+            idx = strip(call_args(init)[1], casts=True) if base is not None else None
+            if bname == 'typecasts':
+                cast_v = (vd, idx)
+            elif bname == 'ind':
+                col_v = (vd, idx)
+            else:
+                bad = 'streams `%s` = %s (neither a cast nor an index column)' % (e[1], expr_key(init)[:40])
+                break
+        if bad is None and (cast_v is None or col_v is None):
+            bad = 'cast or column variable not found'
+        if bad is None and not (cast_v[1]['k'] == 'DeclRefExpr' and cast_v[1].get('did') == col_v[0]['did']):
+            bad = 'column %s is compared through typecasts[%s]: the cast of a DIFFERENT attribute (orders of mixed-type indexes diverge from the interpreter)' % (
+                col_v[0]['name'], expr_key(cast_v[1]))
+        if bad is None and not (col_v[1]['k'] == 'DeclRefExpr' and col_v[1].get('name') == par):
+            bad = 'column is not ind[%s] of the position being generated' % par
+        if bad is None:
+            names = {cast_v[0]['did']: ' CAST ', col_v[0]['did']: ' COL '}
+            try:
+                for take in (True, False):
+                    txt = _expand(ev, take, names)
+                    txt = _re.sub(r'CAST\s*\(\s*a\s*\[\s*COL\s*\]\s*\)', ' A ', txt)
+                    txt = _re.sub(r'CAST\s*\(\s*b\s*\[\s*COL\s*\]\s*\)', ' B ', txt)
+                    for o in '<=>':
+                        for t in ((-1, 0, 1) if take else (0,)):
+                            s = {'<': -1, '>': 1}.get(o) or t
+                            tail = {'operator()': t, 'less': int(t < 0), 'equal': int(t == 0)}[name]
+                            v = _P(txt, {'A': {'<': 0, '=': 1, '>': 2}[o], 'B': 1, 'TAIL': tail}).top()
+                            want = {'operator()': s, 'less': int(s < 0), 'equal': int(s == 0)}[name]
+                            good = ((v > 0) - (v < 0) == want) if name == 'operator()' else bool(v) == bool(want)
+                            if not good:
+                                raise Bad({'l': f.line}, 'the generated %s yields %d for column ordered "%s" with tail result %d (%s more columns); required %d' % (
+                                    name, v, o, t, 'with' if take else 'no', want))
+            except Bad as e:
+                bad = e.why
+        rep.ob(rule, inst, bad is None, f.where, bad or '')
+    return n
+
+
+def walk_events(ev):
+    for e in ev:
+        yield e
+        if e[0] == 'if':
+            for x in walk_events(e[2]):
+                yield x
+            for x in walk_events(e[3]):
+                yield x
